@@ -55,6 +55,7 @@ type Step struct {
 type Cfg struct {
 	Lmtp bool     `json:"lmtp"`
 	Ext  []string `json:"ext"`
+	Extn string   `json:"extn"` // name of the extension set in the specification
 	Cert string   `json:"cert"` // "valid" | "bad"
 }
 
@@ -290,7 +291,7 @@ func runInBubble(b *Beh, tr *vtrace.Tracer) {
 	if ext == nil {
 		ext = []string{}
 	}
-	tr.Emit("Cfg", vtrace.Ev{"lmtp": b.Cfg.Lmtp, "ext": ext, "cert": b.Cfg.Cert})
+	tr.Emit("Cfg", vtrace.Ev{"lmtp": b.Cfg.Lmtp, "ext": ext, "extn": b.Cfg.Extn, "cert": b.Cfg.Cert})
 	for _, st := range b.Steps {
 		rs := st.Rs
 		if rs == nil {
